@@ -4,6 +4,5 @@ package props
 var NotApplicable = [][2]string{
 	{"C10", "Overload resolution is performed by gogen at type-check time over runtime type sets; cl only registers the candidates, so nothing in /repo's source shape determines which candidate is chosen."},
 	{"C11", "Behavioural equivalence of a class file and its explicit struct form is a property of generated programs; the type construction is delegated to gogen."},
-	{"C12", "The Defs/Uses/Types invariants relate object identities and positions created inside gogen at run time; no rule over cl/recorder.go bounds them without executing the type checker."},
 	{"C20", "Idempotence of the printer depends on line/column arithmetic over arbitrary inputs (layout decisions based on source positions); not a shape-of-code fact."},
 }
